@@ -210,18 +210,18 @@ theorem table_bounded [FloatOps F] : ∀ e ∈ (table : List (Entry F)), e.body.
   · exact progOfE_bounded _ _ idx_ife.1 idx_ife.2
   · exact progOfE_bounded _ _ idx_ifl.1 idx_ifl.2
   · exact progOfE_bounded _ _ idx_ifz.1 idx_ifz.2
-  · show (intErcP : Prog F (Val F)).Bounded _; unfold intErcP; bounded_steps
-  · show (landP : Prog F (Val F)).Bounded _; unfold landP; bounded_steps
-  · show (lorP : Prog F (Val F)).Bounded _; unfold lorP; bounded_steps
-  · show (lnotP : Prog F (Val F)).Bounded _; unfold lnotP; bounded_steps
-  · show (boolP false : Prog F (Val F)).Bounded _; unfold boolP; bounded_steps
-  · show (boolP true : Prog F (Val F)).Bounded _; unfold boolP; bounded_steps
+  · show (GenPrims.integer_numberP : Prog F (Val F)).Bounded _; unfold GenPrims.integer_numberP; bounded_steps
+  · show (GenPrims.boolean_l_andP : Prog F (Val F)).Bounded _; unfold GenPrims.boolean_l_andP; bounded_steps
+  · show (GenPrims.boolean_l_orP : Prog F (Val F)).Bounded _; unfold GenPrims.boolean_l_orP; bounded_steps
+  · show (GenPrims.boolean_l_notP : Prog F (Val F)).Bounded _; unfold GenPrims.boolean_l_notP; bounded_steps
+  · show (GenPrims.boolean_zeroP : Prog F (Val F)).Bounded _; unfold GenPrims.boolean_zeroP; bounded_steps
+  · show (GenPrims.boolean_oneP : Prog F (Val F)).Bounded _; unfold GenPrims.boolean_oneP; bounded_steps
 
 theorem varP_bounded [FloatOps F] (k n : Nat) : (varP k : Prog F (Val F)).Bounded n := by
-  unfold varP; bounded_steps
+  unfold varP GenPrims.variableP; bounded_steps
 
 theorem constP_bounded [FloatOps F] (v : Val F) (n : Nat) : (constP v : Prog F (Val F)).Bounded n := by
-  unfold constP; bounded_steps
+  unfold constP GenPrims.constantP; bounded_steps
 
 /-! ### the interpreter EXTRACTED from the current sources
 
@@ -409,7 +409,7 @@ theorem exampleG_wf : WF exampleG := by
     have : c = 0 ∨ c = 1 := by omega
     rcases ‹i = 0 ∨ i = 1 ∨ i = 2 ∨ i = 3› with rfl | rfl | rfl | rfl <;>
       rcases ‹c = 0 ∨ c = 1› with rfl | rfl <;>
-      simp only [exampleG, leaf, varP, constP, C13.Gen.iflP, C13.Gen.addP, C13.Gen.mulP] <;>
+      simp only [exampleG, leaf, varP, constP, GenPrims.variableP, GenPrims.constantP, C13.Gen.iflP, C13.Gen.addP, C13.Gen.mulP] <;>
       bounded_steps
   · decide
 
